@@ -122,7 +122,8 @@ class DataNotification(AbstractXDlmsApdu):
         out.append(self.TAG)
         out.extend(self.long_invoke_id_and_priority.to_bytes())
         if self.date_time:
-            out.extend(b"\x01")
+            # date-time is an OCTET STRING: length (12) followed by the date-time.
+            out.extend(b"\x0c")
             out.extend(dlmstime.datetime_to_bytes(self.date_time))
         else:
             out.extend(b"\x00")
